@@ -445,7 +445,7 @@ def solve_exact(A: list[list[Fraction]], rhs: list[Fraction]) -> list[Fraction]:
 QBITS = 32  # samples are rounded to 2^-32 of the largest value of their pool (error units are >= 5e-5 of it)
 
 
-def closed_form_stepper(net: dict):
+def closed_form_stepper(net: dict, step: int = STEP):
     import mpmath as mp
 
     mp.mp.dps = 50
@@ -454,20 +454,20 @@ def closed_form_stepper(net: dict):
     M = mp.zeros(d + 1, d + 1)
     for i in range(d):
         for j in range(d):
-            M[i, j] = mp.mpf(A[i][j].numerator) / mp.mpf(A[i][j].denominator) * STEP
-        M[i, d] = mp.mpf(b[i].numerator) / mp.mpf(b[i].denominator) * STEP
+            M[i, j] = mp.mpf(A[i][j].numerator) / mp.mpf(A[i][j].denominator) * step
+        M[i, d] = mp.mpf(b[i].numerator) / mp.mpf(b[i].denominator) * step
     E = mp.expm(M)
     z = mp.matrix([mp.mpf(v) for v in net["y0"]] + [1])
     return E, z
 
 
-def trajectory(net: dict, tol: float, rel: bool, max_steps: int) -> dict:
+def trajectory(net: dict, tol: float, rel: bool, max_steps: int, step: int = STEP) -> dict:
     """Closed-form samples y(0..), the closed-form decision and its robustness against integration error.
 
     The samples handed to the Coq model are ("den", "rows"): integers z with sample = z / den_i, den_i a power of two."""
     import mpmath as mp
 
-    E, z = closed_form_stepper(net)
+    E, z = closed_form_stepper(net, step)
     d = net["d"]
     mps = [[z[i] for i in range(d)]]
     fl = [[float(v) for v in net["y0"]]]
@@ -550,7 +550,7 @@ def _alarm(signum, frame):  # noqa: ANN001, ARG001
 
 
 def run_impl(net: dict, tol: float, rel: bool, with_worker: bool = False) -> dict:
-    """-> {"kind": "Steady", "t": float, "y": [..], "fluxes": [..]} | {"kind": "NoSteady"} | {"kind": "Err:..."}"""
+    """-> {"kind": "Steady", "t": float, "y": [..], "fluxes": [..]} | {"kind": "NoSteady"} | {"kind": "OtherFailure:.."} | {"kind": "Err:..."}"""
     import numpy as np
 
     from mxlpy import Simulator
@@ -565,7 +565,8 @@ def run_impl(net: dict, tol: float, rel: bool, with_worker: bool = False) -> dic
             res = Simulator(m, y0=y0).simulate_to_steady_state(tolerance=tol, rel_norm=rel).get_result()
         v = res.value
         if isinstance(v, Exception):
-            out = {"kind": "NoSteady"} if type(v).__name__ == "NoSteadyState" else {"kind": "Err:" + type(v).__name__}
+            # any exception wrapped in the Result is a failure value; only NoSteadyState is the modelled one
+            out = {"kind": "NoSteady"} if type(v).__name__ == "NoSteadyState" else {"kind": "OtherFailure:" + type(v).__name__}
         else:
             frames = v.raw_variables
             if len(frames) != 1 or frames[0].shape[0] != 1:
@@ -629,21 +630,18 @@ def oracle(net: dict, tol: float, rel: bool, out: dict, tr: dict) -> tuple[str, 
     'violation' or 'finding:c15-relnorm-accumulation'."""
     if out["kind"].startswith("Err"):
         return "violation", f"steady-state simulation ended with {out['kind']} {out.get('detail', '')}"
-    if out["kind"] == "NoSteady":
+    if out["kind"] == "NoSteady" or out["kind"].startswith("OtherFailure"):
         return None  # a failure value is never a state presented as steady
     d = net["d"]
     y = out["y"]
     t = out["t"]
-    k = t / STEP
-    if k != int(k) or not (1 <= k <= 1000):
-        return "violation", f"reported time {t} is not a multiple of the sampling step within the budget"
-    n = int(k) - 1  # loop index at which the implementation claims convergence
-    fl = tr["float"]
-    # closed-form samples may have been cut at the closed-form decision; extend if needed
-    need = n + 1
-    if need >= len(fl):
-        fl = extend_float(net, need + 1)
-    maxabs = [max(abs(row[i]) for row in fl[: need + 1]) for i in range(d)]
+    if not (t == t and 0 < t < 1e9) or len(y) != d or any(v != v for v in y):
+        return "violation", f"reported steady state {y} at time {t} is not a finite state at a positive time"
+    # closed-form state at the reported time and one sampling step (of the PROPERTY: 100) earlier
+    y_prev, y_now = closed_form_at(net, max(t - STEP, 0.0)), closed_form_at(net, t)
+    n = 0 if t <= STEP else 1  # n == 0: the previous state is the exact initial value
+    smax = sampled_max(net, t)
+    maxabs = [max(smax[i], abs(y_now[i]), abs(y_prev[i])) for i in range(d)]
     E = err_units(maxabs, net, M_ORACLE)
     Enorm = math.sqrt(sum(e * e for e in E))
     # reported fluxes must reproduce the reported state (exact stoichiometry)
@@ -654,7 +652,7 @@ def oracle(net: dict, tol: float, rel: bool, out: dict, tr: dict) -> tuple[str, 
             resid[i] += c * out["fluxes"][r]
     rnorm = math.sqrt(sum(x * x for x in resid))
     info = stable_info(net)
-    tol_eff = tol if not rel else tol * math.sqrt(sum(v * v for v in fl[n])) * 1.001
+    tol_eff = tol if not rel else tol * math.sqrt(sum(v * v for v in y_prev)) * 1.001
     if info is not None:
         dist = math.sqrt(sum((a - b) ** 2 for a, b in zip(y, info["ystar"])))
         kfac = info["cond"] * max(info["rho"], 1e-300)
@@ -669,7 +667,7 @@ def oracle(net: dict, tol: float, rel: bool, out: dict, tr: dict) -> tuple[str, 
         return None
     # no steady state: presenting a state as steady is only acceptable if the state really changes by
     # less than the tolerance per step (the closed form decides, with the integration-error slack)
-    dn, mg, nonfinite = step_measure(fl[n], fl[n + 1], rel, n, maxabs, net, M_ORACLE)
+    dn, mg, nonfinite = step_measure(y_prev, y_now, rel, n, maxabs, net, M_ORACLE)
     really_below = (not nonfinite) and dn < tol + mg
     what = (
         f"network without steady state ({net['kind']}) reported steady at t={t}, state {y}; closed-form change over the "
@@ -684,14 +682,32 @@ def oracle(net: dict, tol: float, rel: bool, out: dict, tr: dict) -> tuple[str, 
     return "violation", what
 
 
-def extend_float(net: dict, n_samples: int) -> list[list[float]]:
-    E, z = closed_form_stepper(net)
+def sampled_max(net: dict, t: float) -> list[float]:
+    """max |y_i| of the closed form sampled every STEP up to time t (the scale of the integration error)."""
+    E, z = closed_form_stepper(net, STEP)
     d = net["d"]
-    fl = [[float(v) for v in net["y0"]]]
-    for _ in range(n_samples):
+    m = [abs(float(v)) for v in net["y0"]]
+    for _ in range(min(int(t // STEP) + 1, 1001)):
         z = E * z
-        fl.append([float(z[i]) for i in range(d)])
-    return fl
+        m = [max(m[i], abs(float(z[i]))) for i in range(d)]
+    return m
+
+
+def closed_form_at(net: dict, t: float) -> list[float]:
+    """Closed-form state at time t (mpmath, independent of the sampled trajectory)."""
+    import mpmath as mp
+
+    mp.mp.dps = 50
+    A, b = linear_system(net)
+    d = net["d"]
+    M = mp.zeros(d + 1, d + 1)
+    tt = mp.mpf(t)
+    for i in range(d):
+        for j in range(d):
+            M[i, j] = mp.mpf(A[i][j].numerator) / mp.mpf(A[i][j].denominator) * tt
+        M[i, d] = mp.mpf(b[i].numerator) / mp.mpf(b[i].denominator) * tt
+    z = mp.expm(M) * mp.matrix([mp.mpf(v) for v in net["y0"]] + [1])
+    return [float(z[i]) for i in range(d)]
 
 
 # ---------------------------------------------------------------------------------------
@@ -861,7 +877,7 @@ def check(run: Run) -> None:
     records = []
     dflt_tol = facts.get("default_tol")
     for ci, (net, tol, rel) in enumerate(cases):
-        tr = trajectory(net, tol, rel, sim_steps)
+        tr = trajectory(net, tol, rel, sim_steps, step)
         with_worker = dflt_tol is not None and repr(tol) == dflt_tol
         out = run_impl(net, tol, rel, with_worker=with_worker)
         records.append((net, tol, rel, out))
